@@ -858,6 +858,13 @@ def _scope_rule(repo, rep):
     # copy shares the root, new local layer
     c = ci.methods.get("copy")
     text = L.text(c.node, body_only=True)
+    rets_c = [r_ for r_ in ast.walk(c.node) if isinstance(r_, ast.Return)]
+    new_c = {src(a_.targets[0]) for a_ in ast.walk(c.node)
+             if isinstance(a_, ast.Assign) and src(a_.value) == "Scope(self)"}
+    rep.check(bool(rets_c) and all(src(r_.value) in new_c for r_ in rets_c),
+              "R05.6", c.qualname, "copy() returns the new layer (not the "
+              "shared root: a macro would run in its caller's scope)",
+              construct="copy-returns-new-layer", where=L.where(c))
     rep.check("Scope(self)" in text and
               ("getattr(self, '_root', self)" in text) and
               "inst._root = root" in text, "R05.6", c.qualname,
